@@ -1,5 +1,4 @@
-(* C07 (RTPS part): the memory held by the decoded message is linear in the input length,
-   outside the INFO_REPLY over-read class. *)
+(* C07 (RTPS part): the memory held by the decoded message is linear in the input length. *)
 From DustDDS Require Import Base.Machine Base.Bytes Wire.WireModel Wire.WireProofs Wire.WireTotalProofs.
 Open Scope Z_scope.
 Ltac Zify.zify_post_hook ::= Z.div_mod_to_equations.
@@ -76,33 +75,20 @@ Qed.
 Lemma consumes_read_u16 : forall le, consumes (read_u16 le) 2.
 Proof. intros; unfold read_u16; apply consumes_pret_bind, consumes_read_n. Qed.
 
-Lemma region_len : forall (data : list Z) endp o2q, 4 <= o2q -> 0 <= endp ->
-  len (firstn (Z.to_nat (endp - o2q)) (skipn (Z.to_nat o2q) data)) <= endp.
-Proof.
-  intros data endp o2q H1 H2. unfold len. rewrite firstn_length. lia.
-Qed.
+Lemma region_len : forall (data : list Z) a b, len (firstn a (skipn b data)) <= len data.
+Proof. intros. pose proof (len_firstn_le _ a (skipn b data)). pose proof (len_skipn_le _ b data). lia. Qed.
 
-Lemma data_mem : forall fl sublen data sm, bytes_ok data -> 0 <= sublen ->
-  fst (parse_data fl sublen data) = Ok sm ->
-  is_data sm = true /\ sub_mem sm <= 104 + 10 * (if sublen =? 0 then len data else sublen).
+Lemma data_mem : forall fl sublen data sm,
+  fst (parse_data fl sublen data) = Ok sm -> is_data sm = true /\ sub_mem sm <= 104 + 10 * len data.
 Proof.
-  intros fl sublen data sm Hb Hs0. unfold parse_data. set (dk := flag fl 2 || flag fl 3). clearbody dk. rewrite shorter_spec.
-  destruct (Z.ltb_spec (len data) sublen) as [L|L]; cbn [fst]; [discriminate|].
-  match goal with |- context [match ?X with _ => _ end] => destruct X as [r0 c0] eqn:E0 end.
+  intros fl sublen data sm. unfold parse_data. set (dk := flag fl 2 || flag fl 3). clearbody dk.
+  destruct (shorter data sublen); cbn [fst]; [discriminate|].
+  match goal with |- context [match ?X with _ => _ end] => destruct X as [r0 c0] end.
   destruct r0 as [[[[[o2q rid] wid] sn] s1]|?|?]; cbn [fst]; try discriminate.
-  assert (Ho : 4 <= o2q).
-  { assert (F0 : fst ((_ <~ read_u16 (is_le fl);; o <~ read_u16 (is_le fl);; rid <~ read_entity_id;; wid <~ read_entity_id;;
-                        sn <~ read_sn (is_le fl);; pret (o + 4, rid, wid, sn)) data) = Ok (o2q, rid, wid, sn, s1))
-      by (rewrite E0; reflexivity).
-    apply pbind_inv_ok in F0 as (x & t1 & H1 & F0). apply consumes_read_u16 in H1 as [-> _].
-    apply pbind_inv_ok in F0 as (o & t2 & H2 & F0). apply read_u16_nonneg in H2; [|apply bytes_ok_skipn; exact Hb].
-    apply pbind_inv_ok in F0 as (a & t3 & _ & F0). apply pbind_inv_ok in F0 as (b & t4 & _ & F0).
-    apply pbind_inv_ok in F0 as (c & t5 & _ & F0). unfold pret in F0. cbn [fst] in F0. inversion F0; subst. lia. }
   cbv zeta.
   set (endp := if sublen =? 0 then len data else sublen).
-  assert (He : 0 <= endp) by (unfold endp; destruct (sublen =? 0) eqn:Es; [apply len_nonneg|lia]).
-  destruct (Z.ltb_spec endp o2q) as [L2|L2]; cbn [fst]; [discriminate|].
-  pose proof (region_len data endp o2q Ho He) as Hr.
+  destruct (endp <? o2q); cbn [fst]; [discriminate|].
+  pose proof (region_len data (Z.to_nat (endp - o2q)) (Z.to_nat o2q)) as Hr.
   set (region := firstn (Z.to_nat (endp - o2q)) (skipn (Z.to_nat o2q) data)) in *.
   destruct (flag fl 1).
   - pose proof (read_param_list_ok (is_le fl) region) as F1.
@@ -112,36 +98,22 @@ Proof.
     pose proof (len_nonneg _ rest).
     destruct dk; [|change (len (@nil Z)) with 0]; lia.
   - cbn [fst]. intros H; injection H as H; subst sm. split; [reflexivity|].
-    unfold sub_mem, SUB_SIZE, ARC_HDR. cbn [map sumZ].
+    unfold sub_mem, SUB_SIZE, ARC_HDR. cbn [map sumZ]. pose proof (len_nonneg _ region).
     destruct dk; [|change (len (@nil Z)) with 0]; lia.
 Qed.
 
-Lemma data_frag_mem : forall fl sublen data sm, bytes_ok data -> 0 <= sublen ->
-  fst (parse_data_frag fl sublen data) = Ok sm ->
-  is_data sm = true /\ sub_mem sm <= 104 + 10 * (if sublen =? 0 then len data else sublen).
+Lemma data_frag_mem : forall fl sublen data sm,
+  fst (parse_data_frag fl sublen data) = Ok sm -> is_data sm = true /\ sub_mem sm <= 104 + 10 * len data.
 Proof.
-  intros fl sublen data sm Hb Hs0. unfold parse_data_frag. rewrite !shorter_spec.
-  destruct (Z.ltb_spec (len data) sublen) as [L|L]; cbn [fst]; [discriminate|].
-  destruct (Z.ltb_spec (len data) 32) as [L3|L3]; cbn [fst]; [discriminate|].
-  match goal with |- context [match ?X with _ => _ end] => destruct X as [r0 c0] eqn:E0 end.
+  intros fl sublen data sm. unfold parse_data_frag.
+  destruct (shorter data sublen); cbn [fst]; [discriminate|].
+  destruct (shorter data 32); cbn [fst]; [discriminate|].
+  match goal with |- context [match ?X with _ => _ end] => destruct X as [r0 c0] end.
   destruct r0 as [[[[[[[[[o2q rid] wid] sn] fs] fc] fz] ds] s1]|?|?]; cbn [fst]; try discriminate.
-  assert (Ho : 4 <= o2q).
-  { assert (F0 : fst ((_ <~ read_u16 (is_le fl);; o <~ read_u16 (is_le fl);; rid <~ read_entity_id;; wid <~ read_entity_id;;
-                        sn <~ read_sn (is_le fl);; fs <~ read_u32 (is_le fl);; fc <~ read_u16 (is_le fl);;
-                        fz <~ read_u16 (is_le fl);; ds <~ read_u32 (is_le fl);;
-                        pret (o + 4, rid, wid, sn, fs, fc, fz, ds)) data) = Ok (o2q, rid, wid, sn, fs, fc, fz, ds, s1))
-      by (rewrite E0; reflexivity).
-    apply pbind_inv_ok in F0 as (x & t1 & H1 & F0). apply consumes_read_u16 in H1 as [-> _].
-    apply pbind_inv_ok in F0 as (o & t2 & H2 & F0). apply read_u16_nonneg in H2; [|apply bytes_ok_skipn; exact Hb].
-    apply pbind_inv_ok in F0 as (a & t3 & _ & F0). apply pbind_inv_ok in F0 as (b & t4 & _ & F0).
-    apply pbind_inv_ok in F0 as (c & t5 & _ & F0). apply pbind_inv_ok in F0 as (d & t6 & _ & F0).
-    apply pbind_inv_ok in F0 as (g & t7 & _ & F0). apply pbind_inv_ok in F0 as (i & t8 & _ & F0).
-    apply pbind_inv_ok in F0 as (j & t9 & _ & F0). unfold pret in F0. cbn [fst] in F0. inversion F0; subst. lia. }
   cbv zeta.
   set (endp := if sublen =? 0 then len data else sublen).
-  assert (He : 0 <= endp) by (unfold endp; destruct (sublen =? 0) eqn:Es; [apply len_nonneg|lia]).
-  destruct (Z.ltb_spec endp o2q) as [L2|L2]; cbn [fst]; [discriminate|].
-  pose proof (region_len data endp o2q Ho He) as Hr.
+  destruct (endp <? o2q); cbn [fst]; [discriminate|].
+  pose proof (region_len data (Z.to_nat (endp - o2q)) (Z.to_nat o2q)) as Hr.
   set (region := firstn (Z.to_nat (endp - o2q)) (skipn (Z.to_nat o2q) data)) in *.
   destruct (flag fl 1).
   - pose proof (read_param_list_ok (is_le fl) region) as F1.
@@ -150,7 +122,7 @@ Proof.
     specialize (F1 qos rest eq_refl). pose proof (params_mem_wire qos). unfold sub_mem, SUB_SIZE, ARC_HDR.
     pose proof (len_nonneg _ rest). lia.
   - cbn [fst]. intros H; injection H as H; subst sm. split; [reflexivity|].
-    unfold sub_mem, SUB_SIZE, ARC_HDR. cbn [map sumZ]. lia.
+    unfold sub_mem, SUB_SIZE, ARC_HDR. cbn [map sumZ]. pose proof (len_nonneg _ region). lia.
 Qed.
 
 (* ------------------------------------------------------------------ INFO_REPLY *)
@@ -175,21 +147,14 @@ Proof.
     + rewrite len_skipn in L2. unfold len in *. lia.
 Qed.
 
-Lemma read_locator_list_ok : forall le s ls s1, bytes_ok s -> fst (read_locator_list le s) = Ok (ls, s1) ->
-  let n := dec_int le (firstn 4 s) in
-  len ls = n /\ s1 = skipn (Z.to_nat (4 + 24 * n)) s /\ 4 <= len s /\ 0 <= n.
+Lemma read_locator_list_ok : forall le s ls s1, fst (read_locator_list le s) = Ok (ls, s1) ->
+  4 + 24 * len ls + len s1 = len s.
 Proof.
-  intros le s ls s1 Hb H. unfold read_locator_list in H.
+  intros le s ls s1 H. unfold read_locator_list in H.
   apply pbind_inv_ok in H as (n & s' & H1 & H2).
-  pose proof (read_u32_value _ _ _ _ H1) as En. apply consumes_read_u32 in H1 as [-> L1].
-  apply read_locs_ok in H2 as (E1 & E2 & L2). cbv zeta. rewrite <- En.
-  assert (Hn : 0 <= n).
-  { rewrite En. apply dec_int_nonneg. apply bytes_ok_firstn; exact Hb. }
-  set (t := skipn 4 s) in *.
-  assert (Ek : Z.to_nat (Z.min n (len t / 24 + 1)) = Z.to_nat n).
-  { pose proof (len_nonneg _ t). lia. }
-  rewrite Ek in *. split; [unfold len; lia|]. split; [|split; [exact L1|exact Hn]].
-  rewrite E2. unfold t. rewrite skipn_skipn. f_equal. lia.
+  apply consumes_read_u32 in H1 as [-> L1].
+  apply read_locs_ok in H2 as (E1 & E2 & L2).
+  subst s1. rewrite !len_skipn in *. unfold len in *. rewrite ?skipn_length. rewrite E1. lia.
 Qed.
 
 Lemma run_ok_inv : forall A (p : parser A) v a, fst (run p v) = Ok a -> exists s, fst (p v) = Ok (a, s).
@@ -198,25 +163,17 @@ Proof.
   injection H as ->. exists s; reflexivity.
 Qed.
 
-Lemma info_reply_mem : forall fl sublen v sm, bytes_ok v -> 0 <= sublen ->
-  fst (parse_info_reply fl v) = Ok sm ->
-  locs_overread (is_le fl) (flag fl 1) sublen v = false ->
-  is_data sm = false /\ sub_mem sm <= 88 + 2 * sublen.
+Lemma info_reply_mem : forall fl v sm,
+  fst (parse_info_reply fl v) = Ok sm -> is_data sm = false /\ sub_mem sm <= 88 + len v.
 Proof.
-  intros fl sublen v sm Hb Hs H Ho. unfold parse_info_reply in H. apply run_ok_inv in H as (s & H).
+  intros fl v sm H. unfold parse_info_reply in H. apply run_ok_inv in H as (s & H).
   apply pbind_inv_ok in H as (u & s1 & H1 & H).
-  apply read_locator_list_ok in H1 as (Eu & Es1 & L1 & Hn1); [|exact Hb]. cbv zeta in *.
+  apply read_locator_list_ok in H1.
   apply pbind_inv_ok in H as (m & s2 & H2 & H). apply pret_ok in H as [H3 _]. subst sm.
   split; [reflexivity|]. unfold sub_mem, SUB_SIZE, LOC_SIZE.
-  unfold locs_overread in Ho. rewrite !shorter_spec in Ho.
-  destruct (Z.ltb_spec (len v) 4) as [|_]; [lia|].
-  destruct (Z.ltb_spec sublen (24 * dec_int (is_le fl) (firstn 4 v))) as [|L2]; [discriminate|].
-  destruct (flag fl 1); cbn [negb] in Ho.
-  - rewrite <- Es1 in Ho.
-    apply read_locator_list_ok in H2 as (Em & _ & L3 & Hn2); [|subst s1; apply bytes_ok_skipn; exact Hb]. cbv zeta in *.
-    destruct (Z.ltb_spec (len s1) 4) as [|_]; [lia|].
-    apply Z.ltb_ge in Ho. lia.
-  - apply pret_ok in H2 as [H2 _]. subst m. change (len (@nil locator)) with 0. lia.
+  destruct (flag fl 1).
+  - apply read_locator_list_ok in H2. pose proof (len_nonneg _ s2). lia.
+  - apply pret_ok in H2 as [H2 _]. subst m. change (len (@nil locator)) with 0. pose proof (len_nonneg _ s1). lia.
 Qed.
 
 (* ------------------------------------------------------ the fixed-size submessages *)
@@ -256,29 +213,19 @@ Proof.
 Qed.
 
 (* ------------------------------------------------------------------ one submessage *)
-Definition over_bad (x : Z * Z * Z * list Z) : bool :=
-  match x with (id, fl, sublen, body) =>
-    if id =? ID_INFO_REPLY then locs_overread (is_le fl) (flag fl 1) sublen body else false end.
-
-Lemma parse_sub_mem : forall id fl sublen v sm, bytes_ok v -> 0 <= sublen <= len v ->
-  fst (parse_sub id fl sublen v) = Ok sm -> over_bad (id, fl, sublen, v) = false ->
-  sub_mem sm <= 104 + 10 * (if (sublen =? 0) && is_data sm then len v else sublen).
+Lemma parse_sub_mem : forall id fl sublen v sm,
+  fst (parse_sub id fl sublen v) = Ok sm -> sub_mem sm <= 104 + 10 * len v.
 Proof.
-  intros id fl sublen v sm Hb Hs H Ho. unfold parse_sub in H. unfold over_bad in Ho.
-  assert (Small : small sm -> sub_mem sm <= 104 + 10 * (if (sublen =? 0) && is_data sm then len v else sublen)).
-  { intros [E1 E2]. rewrite E1, E2, andb_false_r. cbv iota. lia. }
-  assert (Big : is_data sm = true /\ sub_mem sm <= 104 + 10 * (if sublen =? 0 then len v else sublen) ->
-                sub_mem sm <= 104 + 10 * (if (sublen =? 0) && is_data sm then len v else sublen)).
-  { intros [E1 E2]. rewrite E1, andb_true_r. exact E2. }
+  intros id fl sublen v sm H. unfold parse_sub in H. pose proof (len_nonneg _ v) as Hl.
+  assert (Small : small sm -> sub_mem sm <= 104 + 10 * len v) by (intros [_ E2]; lia).
   destruct (id =? ID_ACKNACK); [apply Small; eapply acknack_small; eauto|].
-  destruct (id =? ID_DATA); [apply Big; eapply data_mem; eauto; lia|].
-  destruct (id =? ID_DATA_FRAG); [apply Big; eapply data_frag_mem; eauto; lia|].
+  destruct (id =? ID_DATA); [apply (data_mem fl sublen v sm H)|].
+  destruct (id =? ID_DATA_FRAG); [apply (data_frag_mem fl sublen v sm H)|].
   destruct (id =? ID_GAP); [apply Small; eapply gap_small; eauto|].
   destruct (id =? ID_HEARTBEAT); [apply Small; eapply heartbeat_small; eauto|].
   destruct (id =? ID_HEARTBEAT_FRAG); [apply Small; eapply heartbeat_frag_small; eauto|].
   destruct (id =? ID_INFO_DST); [apply Small; eapply info_dst_small; eauto|].
-  destruct (id =? ID_INFO_REPLY).
-  { destruct (info_reply_mem fl sublen v sm Hb ltac:(lia) H Ho) as [E1 E2]. rewrite E1, andb_false_r. cbv iota. lia. }
+  destruct (id =? ID_INFO_REPLY); [destruct (info_reply_mem fl v sm H); lia|].
   destruct (id =? ID_INFO_SRC); [apply Small; eapply info_src_small; eauto|].
   destruct (id =? ID_INFO_TS); [apply Small; eapply info_ts_small; eauto|].
   destruct (id =? ID_NACK_FRAG); [apply Small; eapply nack_frag_small; eauto|].
@@ -287,102 +234,41 @@ Proof.
   - cbn [fst] in H. discriminate.
 Qed.
 
+Lemma len_firstn_skipn : forall (n : nat) (l : list Z), len (firstn n l) + len (skipn n l) = len l.
+Proof. intros. rewrite <- (firstn_skipn n l) at 3. rewrite len_app. reflexivity. Qed.
+
 (* ----------------------------------------------------------------------- the loop *)
-Lemma sub_loop_mem : forall fuel v l, bytes_ok v -> fst (sub_loop fuel v) = Ok l ->
-  existsb over_bad (visits fuel v) = false -> msg_mem l <= 26 * len v.
+Lemma sub_loop_mem : forall fuel v l, fst (sub_loop fuel v) = Ok l -> msg_mem l <= 26 * len v.
 Proof.
-  induction fuel as [|k IH]; intros v l Hb H Hv.
+  induction fuel as [|k IH]; intros v l H.
   - cbn [sub_loop fst] in H. injection H as <-. unfold msg_mem; cbn [map sumZ]. pose proof (len_nonneg _ v). lia.
   - assert (Hnil : msg_mem (@nil psub) <= 26 * len v) by (unfold msg_mem; cbn [map sumZ]; pose proof (len_nonneg _ v); lia).
     destruct v as [|id [|fl [|b2 [|b3 v']]]]; try (cbn [sub_loop fst] in H; injection H as <-; exact Hnil).
-    cbn [sub_loop visits] in *. cbv zeta in *.
+    cbn [sub_loop] in *. cbv zeta in *.
     set (sublen := sublen_of fl b2 b3) in *.
-    assert (Hb' : bytes_ok v') by (inversion Hb as [|? ? ? Hb1]; inversion Hb1 as [|? ? ? Hb2]; inversion Hb2 as [|? ? ? Hb3]; inversion Hb3; assumption).
-    assert (Hs0 : 0 <= sublen).
-    { inversion Hb as [|? ? ? Hb1]; inversion Hb1 as [|? ? A2 Hb2]; inversion Hb2 as [|? ? A3 Hb3]; inversion Hb3 as [|? ? A4 ?]; subst.
-      unfold sublen, sublen_of, is_byte in *. destruct (is_le fl); lia. }
-    rewrite shorter_spec in *.
-    destruct (Z.ltb_spec (len v') sublen) as [L|L]; [cbn [fst] in H; injection H as <-; exact Hnil|].
-    cbn [existsb] in Hv. apply orb_false_iff in Hv as [Hv1 Hv2].
-    pose proof (parse_sub_mem id fl sublen v') as PM.
+    destruct (shorter v' sublen); [cbn [fst] in H; injection H as <-; exact Hnil|].
+    set (n := Z.to_nat (body_len_of id sublen v')) in *.
+    pose proof (parse_sub_mem id fl sublen (firstn n v')) as PM.
+    pose proof (len_firstn_skipn n v') as Hsplit. pose proof (len_nonneg _ (firstn n v')).
     rewrite !len_cons.
-    destruct (parse_sub id fl sublen v') as [[sm|e|x] c]; cbn [fst] in *.
-    + specialize (PM sm Hb' ltac:(lia) eq_refl Hv1).
-      set (consumed := if (sublen =? 0) && is_data sm then len v' else sublen) in *.
-      assert (Hc : 0 <= consumed <= len v') by (unfold consumed; destruct ((sublen =? 0) && is_data sm); lia).
-      specialize (IH (skipn (Z.to_nat consumed) v')).
-      destruct (sub_loop k (skipn (Z.to_nat consumed) v')) as [[l'|e|x] c']; cbn [fst] in *; try discriminate.
-      injection H as <-. specialize (IH l' ltac:(apply bytes_ok_skipn; exact Hb') eq_refl Hv2).
-      rewrite len_skipn in IH. unfold msg_mem in *. cbn [map sumZ]. unfold len in *. lia.
-    + specialize (IH (skipn (Z.to_nat sublen) v')).
-      destruct (sub_loop k (skipn (Z.to_nat sublen) v')) as [r c']; cbn [fst] in *. subst r.
-      specialize (IH l ltac:(apply bytes_ok_skipn; exact Hb') eq_refl Hv2).
-      pose proof (len_skipn_le _ (Z.to_nat sublen) v'). lia.
+    specialize (IH (skipn n v')).
+    destruct (parse_sub id fl sublen (firstn n v')) as [[sm|e|x] c]; cbn [fst] in *.
+    + specialize (PM sm eq_refl).
+      destruct (sub_loop k (skipn n v')) as [[l'|e|x] c']; cbn [fst] in *; try discriminate.
+      injection H as <-. specialize (IH l' eq_refl). unfold msg_mem in *. cbn [map sumZ]. lia.
+    + destruct (sub_loop k (skipn n v')) as [r c']; cbn [fst] in *. subst r.
+      specialize (IH l eq_refl). lia.
     + discriminate.
 Qed.
 
-(* the memory held by the decoded message: at most 26 bytes per input byte, for every byte
-   string outside the INFO_REPLY over-read class *)
-Theorem decoded_memory_linear : forall v h l, bytes_ok v ->
-  C07_known_overread v = false -> parse_message v = Ok (h, l) -> msg_mem l <= 26 * len v.
+(* the memory held by the decoded message: at most 26 bytes per input byte, for every input *)
+Theorem decoded_memory_linear : forall v h l, parse_message v = Ok (h, l) -> msg_mem l <= 26 * len v.
 Proof.
-  intros v h l Hb Ho H. unfold parse_message, parse_message_cost in H. unfold C07_known_overread, message_visits in Ho.
+  intros v h l H. unfold parse_message, parse_message_cost in H.
   destruct (shorter v 20); [cbn [fst] in H; discriminate|].
   destruct (negb (list_eqb (firstn 4 v) RTPS_MAGIC)); [cbn [fst] in H; discriminate|].
   pose proof (sub_loop_mem MAX_SUBMESSAGES (skipn 20 v)) as SM.
   destruct (sub_loop MAX_SUBMESSAGES (skipn 20 v)) as [[l'|e|x] c]; cbn [fst] in *; try discriminate.
-  injection H as _ <-. specialize (SM l' ltac:(apply bytes_ok_skipn; exact Hb) eq_refl Ho).
+  injection H as _ <-. specialize (SM l' eq_refl).
   pose proof (len_skipn_le _ 20%nat v). lia.
-Qed.
-
-(* ---------------------------------------------------------------------- witnesses *)
-Definition hdr20 : list Z := [82; 84; 80; 83; 2; 3; 1; 2; 0; 1; 2; 3; 4; 5; 6; 7; 8; 9; 10; 11].
-
-(* an 84-byte datagram: NACK_FRAG with numBits = 288 *)
-Definition nackfrag_288 : list Z :=
-  hdr20 ++ [18; 1; 60; 0] ++ [1;2;3;4] ++ [6;7;8;9] ++ [0;0;0;0; 9;0;0;0] ++ [2;0;0;0] ++ [32;1;0;0] ++
-  repeat 0 32 ++ [7;0;0;0].
-
-Lemma fragset_panics :
-  len nackfrag_288 = 84 /\ bytes_ok nackfrag_288 /\ C07_known_fnset nackfrag_288 = true /\
-  parse_message nackfrag_288 = Panic P_FNSET_INDEX.
-Proof.
-  split; [reflexivity|]. split; [apply bytes_okb_true; vm_compute; reflexivity|].
-  split; vm_compute; reflexivity.
-Qed.
-
-(* INFO_REPLY headers every 8 bytes, each announcing as many locators as fit in the rest *)
-Fixpoint reply_chain (k : nat) : list Z :=
-  match k with
-  | O => []
-  | S j => [15; 1; 4; 0] ++ enc_le 4 (8 * Z.of_nat j / 24) ++ reply_chain j
-  end.
-Definition overread_witness : list Z := hdr20 ++ reply_chain 256.
-Definition decoded_mem (v : list Z) : Z := match parse_message v with Ok (_, l) => msg_mem l | _ => 0 end.
-
-Lemma overread_superlinear :
-  len overread_witness = 2068 /\ bytes_ok overread_witness /\ C07_known_overread overread_witness = true /\
-  is_ok (parse_message overread_witness) = true /\ decoded_mem overread_witness = 281608 /\
-  26 * len overread_witness < decoded_mem overread_witness.
-Proof.
-  split; [vm_compute; reflexivity|]. split; [apply bytes_okb_true; vm_compute; reflexivity|].
-  split; [vm_compute; reflexivity|]. split; [vm_compute; reflexivity|].
-  assert (E : decoded_mem overread_witness = 281608) by (vm_compute; reflexivity).
-  split; [exact E|]. rewrite E. vm_compute. reflexivity.
-Qed.
-
-(* DATA headers with submessage_length 0 every 4 bytes: each scans the rest and fails *)
-Fixpoint data0_chain (k : nat) : list Z :=
-  match k with O => [] | S j => [21; 3; 0; 0] ++ data0_chain j end.
-Definition rescan_witness : list Z := hdr20 ++ data0_chain 256.
-
-Lemma rescan_superlinear :
-  len rescan_witness = 1044 /\ bytes_ok rescan_witness /\ C07_known_rescan rescan_witness = true /\
-  C07_known_overread rescan_witness = false /\ is_ok (parse_message rescan_witness) = true /\
-  decoded_mem rescan_witness = 0 /\
-  COST_C * len rescan_witness + COST_K < message_cost rescan_witness.
-Proof.
-  split; [vm_compute; reflexivity|]. split; [apply bytes_okb_true; vm_compute; reflexivity|].
-  split; [vm_compute; reflexivity|]. split; [vm_compute; reflexivity|]. split; [vm_compute; reflexivity|].
-  split; [vm_compute; reflexivity|]. vm_compute. reflexivity.
 Qed.
